@@ -7,6 +7,7 @@ package observer
 // contextObserver.With: the child's context is the parent's followed by the new fields, in a
 // backing array of its own - the parent's context (header and every element), its siblings and
 // every Field cell that existed before are untouched (capacity-capped append).
+//@ typeinv *zaptest/observer.contextObserver co: co != nil
 //@ func (*zaptest/observer.contextObserver).With
 //@   props C07
 //@   refines zapcore.Core.With
